@@ -171,7 +171,7 @@ impl std::fmt::Display for Relation {
             write!(f, " <")?;
             for (i, profile) in profile.iter().enumerate() {
                 if i > 0 {
-                    write!(f, ", ")?;
+                    write!(f, " ")?;
                 }
                 write!(f, "{}", profile)?;
             }
@@ -381,33 +381,24 @@ impl std::str::FromStr for Relation {
         let mut profiles = Vec::new();
         while let Some((L_ANGLE, _)) = tokens.peek() {
             tokens.next();
+            let mut profile = Vec::new();
             loop {
-                let mut profile = Vec::new();
-                loop {
-                    match tokens.next() {
-                        Some((NOT, _)) => {
-                            let profile_name = match tokens.next() {
-                                Some((IDENT, s)) => s,
-                                _ => return Err("Expected profile name".to_string()),
-                            };
-                            profile.push(BuildProfile::Disabled(profile_name));
-                        }
-                        Some((IDENT, s)) => profile.push(BuildProfile::Enabled(s)),
-                        Some((WHITESPACE | NEWLINE, _)) => {}
-                        _ => return Err("Expected profile name".to_string()),
+                match tokens.next() {
+                    Some((NOT, _)) => {
+                        let profile_name = match tokens.next() {
+                            Some((IDENT, s)) => s,
+                            _ => return Err("Expected profile name".to_string()),
+                        };
+                        profile.push(BuildProfile::Disabled(profile_name));
                     }
-                    if let Some((COMMA, _)) = tokens.peek() {
-                        tokens.next();
-                    } else {
-                        break;
-                    }
-                }
-                profiles.push(profile);
-                if let Some((R_ANGLE, _)) = tokens.next() {
-                    eat_whitespace(&mut tokens);
-                    break;
+                    Some((IDENT, s)) => profile.push(BuildProfile::Enabled(s)),
+                    Some((WHITESPACE | NEWLINE | COMMA, _)) => {}
+                    Some((R_ANGLE, _)) => break,
+                    _ => return Err("Expected profile name".to_string()),
                 }
             }
+            profiles.push(profile);
+            eat_whitespace(&mut tokens);
         }
 
         eat_whitespace(&mut tokens);
